@@ -1,16 +1,19 @@
 import Qwt.Spec.Basic
 import Qwt.Proofs.RSQBits
+import Qwt.Extracted
 
 /-!
 Arithmetic of the sampling scheme of `PrefetchSupport::new` (`src/quadwt/prefetch_support.rs`)
-for the sample rate `2048 = 2^11` used by the quad wavelet trees.
+for the sample rate `rate = 2 ^ pfsSampleShift` used by the quad wavelet trees (`2048 = 2^11` at
+the time of writing; nothing below depends on the value beyond the side conditions
+`rate_pos`, `rate_ge_two`, which are decided on the extracted constant).
 
 Walking over a level of length `n`, a group of four flags is pushed at every position `i` with
-`i % 2048 = 0` and at the last position `i = n - 1`.  Hence
+`i % rate = 0` and at the last position `i = n - 1`.  Hence
 
 * `nbOf n`      — number of bits of each sample vector;
 * `covered n j` — number of level elements covered by the first `j` sample bits
-                  (bit `0` covers element `0`, bit `j ≥ 1` the elements `(2048 (j-1), 2048 j]`,
+                  (bit `0` covers element `0`, bit `j ≥ 1` the elements `(rate (j-1), rate j]`,
                   the last bit the tail);
 * `mOf n i`, `cOf n i` — number of bits pushed / number of elements covered after the first
                   `i` elements have been processed (loop invariant).
@@ -18,65 +21,178 @@ Walking over a level of length `n`, a group of four flags is pushed at every pos
 namespace Qwt.PfsP
 open Qwt
 
-/-- number of bits of each sample vector for a level of length `n` -/
-def nbOf (n : Nat) : Nat := if n = 0 then 0 else (n + 2046) / 2048 + 1
+/-! ### the sample rate -/
+
+/-- the sample rate of the prefetch support of the quad wavelet trees, `2 ^ pfsSampleShift` -/
+def rate : Nat := 2 ^ Extracted.pfsSampleShift
+
+theorem rate_def : rate = 2 ^ Extracted.pfsSampleShift := rfl
+
+theorem rate_pos : 0 < rate := Nat.two_pow_pos _
+
+/-- side condition on the extracted constant: the shift is not zero (with rate 1 the last block
+    `⌊n/rate⌋ + 1` of a level of length `n` would lie outside the `n` sample bits) -/
+theorem shift_pos : 1 ≤ Extracted.pfsSampleShift := by decide
+
+theorem rate_ge_two : 2 ≤ rate := by
+  have := Nat.pow_le_pow_right (n := 2) (by decide) shift_pos
+  exact this
+
+theorem one_shiftLeft_shift : (1 <<< Extracted.pfsSampleShift : Nat) = rate := Nat.one_shiftLeft _
+
+theorem shiftRight_shift (i : Nat) : i >>> Extracted.pfsSampleShift = i / rate :=
+  Nat.shiftRight_eq_div_pow _ _
+
+/-- the literal value, for the current shift -/
+theorem rate_2048 (h : Extracted.pfsSampleShift = 11) : rate = 2048 := by
+  rw [rate_def, h]
+
+/-! ### division by a variable (for `omega`: products `R * q` are atoms) -/
+
+theorem dm (R x : Nat) (hR : 0 < R) : R * (x / R) + x % R = x ∧ x % R < R :=
+  ⟨Nat.div_add_mod x R, Nat.mod_lt x hR⟩
+
+theorem div_eq_of {R x y : Nat} (h1 : R * y ≤ x) (h2 : x < R * y + R) : x / R = y := by
+  apply Nat.div_eq_of_lt_le
+  · rw [Nat.mul_comm]; exact h1
+  · rw [Nat.add_mul, Nat.one_mul, Nat.mul_comm]; exact h2
+
+/-- `⌈(i+1)/R⌉ = ⌊i/R⌋ + 1` -/
+theorem ceil_succ {R : Nat} (hR : 0 < R) (i : Nat) : (i + 1 + R - 1) / R = i / R + 1 := by
+  rw [show i + 1 + R - 1 = i + R by omega]; exact Nat.add_div_right i hR
+
+/-- `⌈i/R⌉ = ⌊i/R⌋` on multiples of `R` -/
+theorem ceil_of_mod_eq {R : Nat} (hR : 0 < R) {i : Nat} (h : i % R = 0) : (i + R - 1) / R = i / R := by
+  obtain ⟨h1, h2⟩ := dm R i hR
+  exact div_eq_of (by omega) (by omega)
+
+/-- `⌈i/R⌉ = ⌊i/R⌋ + 1` off the multiples of `R` -/
+theorem ceil_of_mod_ne {R : Nat} (hR : 0 < R) {i : Nat} (h : i % R ≠ 0) :
+    (i + R - 1) / R = i / R + 1 := by
+  obtain ⟨h1, h2⟩ := dm R i hR
+  have e : R * (i / R + 1) = R * (i / R) + R := Nat.mul_succ _ _
+  exact div_eq_of (by omega) (by omega)
+
+theorem pred_div_of_mod_ne {R : Nat} (hR : 0 < R) {i : Nat} (h : i % R ≠ 0) : (i - 1) / R = i / R := by
+  obtain ⟨h1, h2⟩ := dm R i hR
+  exact div_eq_of (by omega) (by omega)
+
+/-! ### the sampling scheme -/
+
+/-- number of bits of each sample vector for a level of length `n`: `⌈(n-1)/rate⌉ + 1` -/
+def nbOf (n : Nat) : Nat := if n = 0 then 0 else (n + rate - 2) / rate + 1
 
 /-- number of elements covered by the first `j` sample bits -/
-def covered (n j : Nat) : Nat := if j = 0 then 0 else min (2048 * (j - 1) + 1) n
+def covered (n j : Nat) : Nat := if j = 0 then 0 else min (rate * (j - 1) + 1) n
 
 /-- bits pushed after `i` elements -/
-def mOf (n i : Nat) : Nat := if i = n then nbOf n else (i + 2047) / 2048
+def mOf (n i : Nat) : Nat := if i = n then nbOf n else (i + rate - 1) / rate
 
 /-- elements covered by the bits pushed after `i` elements -/
-def cOf (n i : Nat) : Nat := if i = 0 then 0 else if i = n then n else 2048 * ((i - 1) / 2048) + 1
+def cOf (n i : Nat) : Nat := if i = 0 then 0 else if i = n then n else rate * ((i - 1) / rate) + 1
+
+/-- the literal forms for the current value of the shift -/
+theorem nbOf_2048 (h : Extracted.pfsSampleShift = 11) (n : Nat) :
+    nbOf n = if n = 0 then 0 else (n + 2046) / 2048 + 1 := by
+  unfold nbOf; rw [rate_2048 h]; split <;> omega
+
+theorem covered_2048 (h : Extracted.pfsSampleShift = 11) (n j : Nat) :
+    covered n j = if j = 0 then 0 else min (2048 * (j - 1) + 1) n := by
+  unfold covered; rw [rate_2048 h]
 
 theorem nbOf_pos {n : Nat} (h : 0 < n) : 0 < nbOf n := by
-  unfold nbOf; rw [if_neg (by omega)]; omega
+  unfold nbOf; rw [if_neg (by omega)]; exact Nat.succ_pos _
+
+/-- `⌈(n-1)/rate⌉ ≤ n - 1`: never more sample bits than elements -/
+theorem nbOf_le (n : Nat) : nbOf n ≤ n := by
+  unfold nbOf
+  split
+  · omega
+  · have hR := rate_pos
+    generalize rate = R at *
+    have : (n + R - 2) / R ≤ n - 1 := by
+      have h1 : n + R - 2 = n - 1 + (R - 1) := by omega
+      rw [h1]
+      by_cases h0 : n - 1 = 0
+      · rw [h0, Nat.zero_add, Nat.div_eq_of_lt (by omega)]; omega
+      · have := ceil_succ hR (n - 2)
+        rw [show n - 2 + 1 + R - 1 = n - 1 + (R - 1) by omega] at this
+        rw [this]
+        have := Nat.div_le_self (n - 2) R
+        omega
+    omega
 
 theorem covered_le (n j : Nat) : covered n j ≤ n := by
   unfold covered; split <;> omega
 
 theorem covered_mono (n : Nat) {j j' : Nat} (h : j ≤ j') : covered n j ≤ covered n j' := by
-  unfold covered; split <;> split <;> omega
+  unfold covered
+  have := Nat.mul_le_mul_left rate (show j - 1 ≤ j' - 1 by omega)
+  split <;> split <;> omega
 
 theorem covered_zero (n : Nat) : covered n 0 = 0 := rfl
 
-theorem covered_succ (n j : Nat) : covered n (j + 1) = min (2048 * j + 1) n := by
+theorem covered_succ (n j : Nat) : covered n (j + 1) = min (rate * j + 1) n := by
   unfold covered; rw [if_neg (by omega), Nat.add_sub_cancel]
 
 theorem covered_nbOf (n : Nat) : covered n (nbOf n) = n := by
-  unfold covered nbOf; split <;> split <;> omega
+  unfold nbOf
+  by_cases h0 : n = 0
+  · subst h0; rfl
+  · rw [if_neg h0, covered_succ]
+    obtain ⟨h1, h2⟩ := dm rate (n + rate - 2) rate_pos
+    have := rate_pos
+    generalize rate * ((n + rate - 2) / rate) = a at *
+    omega
 
 theorem mOf_zero (n : Nat) : mOf n 0 = 0 := by
-  unfold mOf nbOf; split <;> simp_all
+  unfold mOf
+  split
+  · next h => subst h; rfl
+  · rw [Nat.zero_add]; exact Nat.div_eq_of_lt (by have := rate_pos; omega)
 
 theorem cOf_zero (n : Nat) : cOf n 0 = 0 := rfl
 
 theorem mOf_self (n : Nat) : mOf n n = nbOf n := by unfold mOf; rw [if_pos rfl]
 
+theorem mOf_of_ne {n i : Nat} (h : i ≠ n) : mOf n i = (i + rate - 1) / rate := by
+  unfold mOf; rw [if_neg h]
+
 theorem cOf_le {n i : Nat} (h : i ≤ n) : cOf n i ≤ i := by
   unfold cOf; split
   · omega
-  · split <;> omega
+  · split
+    · omega
+    · obtain ⟨h1, h2⟩ := dm rate (i - 1) rate_pos
+      omega
 
-theorem lt_cOf_add {n i : Nat} (h : i < n) : i + 1 ≤ cOf n i + 2048 := by
+theorem lt_cOf_add {n i : Nat} (h : i < n) : i + 1 ≤ cOf n i + rate := by
   unfold cOf; split
-  · omega
-  · rw [if_neg (by omega)]; omega
+  · have := rate_pos; omega
+  · rw [if_neg (by omega)]
+    obtain ⟨h1, h2⟩ := dm rate (i - 1) rate_pos
+    omega
 
 theorem covered_mOf {n i : Nat} (h : i ≤ n) : covered n (mOf n i) = cOf n i := by
   by_cases hin : i = n
   · subst hin; rw [mOf_self, covered_nbOf]; unfold cOf; split <;> simp_all
-  · unfold covered mOf cOf
-    rw [if_neg hin]
-    by_cases h0 : i = 0
-    · subst h0; simp
-    · rw [if_neg (by omega), if_neg h0, if_neg hin]; omega
+  · by_cases h0 : i = 0
+    · subst h0; rw [mOf_zero]; rfl
+    · rw [mOf_of_ne hin]
+      have e := ceil_succ rate_pos (i - 1)
+      rw [show i - 1 + 1 + rate - 1 = i + rate - 1 by omega] at e
+      rw [e, covered_succ]
+      unfold cOf
+      rw [if_neg h0, if_neg hin]
+      obtain ⟨h1, h2⟩ := dm rate (i - 1) rate_pos
+      omega
 
 /-- a push happens at position `i` -/
-theorem step_push {n i : Nat} (h : i < n) (hp : i % 2048 = 0 ∨ i + 1 = n) :
+theorem step_push {n i : Nat} (h : i < n) (hp : i % rate = 0 ∨ i + 1 = n) :
     mOf n (i + 1) = mOf n i + 1 ∧ cOf n (i + 1) = i + 1 ∧ covered n (mOf n i + 1) = i + 1 := by
-  have hm : mOf n i = (i + 2047) / 2048 := by unfold mOf; rw [if_neg (by omega)]
+  have hR := rate_pos
+  have hm : mOf n i = (i + rate - 1) / rate := mOf_of_ne (by omega)
+  obtain ⟨d1, d2⟩ := dm rate i rate_pos
   have hc : cOf n (i + 1) = i + 1 := by
     unfold cOf; rw [if_neg (by omega)]; split
     · omega
@@ -84,46 +200,76 @@ theorem step_push {n i : Nat} (h : i < n) (hp : i % 2048 = 0 ∨ i + 1 = n) :
       · simp only [Nat.add_sub_cancel]; omega
       · omega
   refine ⟨?_, hc, ?_⟩
-  · rw [hm]; unfold mOf nbOf
+  · rw [hm]
     by_cases he : i + 1 = n
-    · rw [if_pos he, if_neg (by omega)]; omega
-    · rw [if_neg he]; rcases hp with hp | hp <;> omega
+    · subst he
+      rw [mOf_self]; unfold nbOf
+      rw [if_neg (by omega), show i + 1 + rate - 2 = i + rate - 1 by omega]
+    · rw [mOf_of_ne he]
+      rcases hp with hp | hp
+      · rw [ceil_succ hR, ceil_of_mod_eq hR hp]
+      · exact absurd hp he
   · rw [covered_succ, hm]
-    rcases hp with hp | hp <;> omega
+    rcases hp with hp | hp
+    · rw [ceil_of_mod_eq hR hp]; omega
+    · obtain ⟨c1, c2⟩ := dm rate (i + rate - 1) rate_pos
+      omega
 
 /-- no push at position `i` -/
-theorem step_nopush {n i : Nat} (h : i < n) (hp : ¬ (i % 2048 = 0 ∨ i + 1 = n)) :
+theorem step_nopush {n i : Nat} (h : i < n) (hp : ¬ (i % rate = 0 ∨ i + 1 = n)) :
     mOf n (i + 1) = mOf n i ∧ cOf n (i + 1) = cOf n i := by
-  have h1 : i % 2048 ≠ 0 := fun e => hp (Or.inl e)
+  have hR := rate_pos
+  have h1 : i % rate ≠ 0 := fun e => hp (Or.inl e)
   have h2 : i + 1 ≠ n := fun e => hp (Or.inr e)
+  have h0 : i ≠ 0 := by intro e; subst e; exact h1 (Nat.zero_mod _)
   constructor
-  · unfold mOf; rw [if_neg h2, if_neg (by omega)]; omega
-  · unfold cOf; rw [if_neg (by omega), if_neg h2, if_neg (by omega), if_neg (by omega)]
-    simp only [Nat.add_sub_cancel]; omega
+  · rw [mOf_of_ne h2, mOf_of_ne (by omega), ceil_succ hR, ceil_of_mod_ne hR h1]
+  · unfold cOf; rw [if_neg (by omega), if_neg h2, if_neg h0, if_neg (by omega)]
+    simp only [Nat.add_sub_cancel]
+    rw [pred_div_of_mod_ne hR h1]
 
-/-- a position `p ≤ n` of a non-empty level is inside the sample vectors -/
-theorem block_in_range {n p : Nat} (hn : 0 < n) (hp : p ≤ n) : p / 2048 + 1 ≤ nbOf n := by
-  unfold nbOf; rw [if_neg (by omega)]; omega
+/-- a position `p ≤ n` of a non-empty level is inside the sample vectors (any rate `≥ 2`) -/
+theorem block_in_range {n p : Nat} (hn : 0 < n) (hp : p ≤ n) : p / rate + 1 ≤ nbOf n := by
+  unfold nbOf; rw [if_neg (by omega)]
+  have := rate_ge_two
+  have := Nat.div_le_div_right (c := rate) (show p ≤ n + rate - 2 by omega)
+  omega
 
-theorem covered_block_le (n p : Nat) : covered n (p / 2048 + 1) ≤ p + 1 := by
-  rw [covered_succ]; omega
+theorem covered_block_le (n p : Nat) : covered n (p / rate + 1) ≤ p + 1 := by
+  rw [covered_succ]
+  obtain ⟨h1, h2⟩ := dm rate p rate_pos
+  omega
 
 /-! ### the flag arithmetic -/
 
 theorem flag_succ {c r : Nat} (h : c ≤ r) :
-    decide (c / 2048 < (r + 1) / 2048) = (decide (c / 2048 < r / 2048) || ((r + 1) % 2048 == 0)) := by
-  by_cases h1 : c / 2048 < r / 2048
-  · have : c / 2048 < (r + 1) / 2048 := by omega
+    decide (c / rate < (r + 1) / rate) = (decide (c / rate < r / rate) || ((r + 1) % rate == 0)) := by
+  have hR := rate_pos
+  generalize rate = R at *
+  have hcr := Nat.div_le_div_right (c := R) h
+  have hr1 := Nat.div_le_div_right (c := R) (Nat.le_succ r)
+  have hs : (r + 1) / R = r / R + if (r + 1) % R = 0 then 1 else 0 := by
+    rw [Nat.succ_div]
+    simp only [Nat.dvd_iff_mod_eq_zero]
+  by_cases h1 : c / R < r / R
+  · have : c / R < (r + 1) / R := by omega
     simp [h1, this]
-  · by_cases h2 : (r + 1) % 2048 = 0
-    · have : c / 2048 < (r + 1) / 2048 := by omega
+  · by_cases h2 : (r + 1) % R = 0
+    · rw [if_pos h2] at hs
+      have : c / R < (r + 1) / R := by omega
       simp [h1, h2, this]
-    · have : ¬ c / 2048 < (r + 1) / 2048 := by omega
+    · rw [if_neg h2] at hs
+      have : ¬ c / R < (r + 1) / R := by omega
       simp [h1, h2, this]
 
-theorem flag_add {a b : Nat} (h1 : a ≤ b) (h2 : b ≤ a + 2048) :
-    a / 2048 + (if decide (a / 2048 < b / 2048) = true then 1 else 0) = b / 2048 := by
-  by_cases h : a / 2048 < b / 2048
+theorem flag_add {a b : Nat} (h1 : a ≤ b) (h2 : b ≤ a + rate) :
+    a / rate + (if decide (a / rate < b / rate) = true then 1 else 0) = b / rate := by
+  have hR := rate_pos
+  generalize rate = R at *
+  have l1 := Nat.div_le_div_right (c := R) h1
+  have l2 := Nat.div_le_div_right (c := R) h2
+  rw [Nat.add_div_right a hR] at l2
+  by_cases h : a / R < b / R
   · simp only [h, decide_true, if_true]; omega
   · simp only [h, decide_false, Bool.false_eq_true, if_false]; omega
 
